@@ -457,7 +457,11 @@ func TestVerifWireWrap(t *testing.T) {
 				go func() { _, _ = io.Copy(io.Discard, c2) }()
 				defer c1.Close()
 				defer c2.Close()
-				_ = c1.SetDeadline(time.Now().Add(2 * time.Second))
+				// the peer reads whatever the station answers and goes away after 300 ms: a transport that deliberately
+				// holds a failed handshake open (the obfs4 library does, against probing) returns when its peer is gone,
+				// a call that does not is a hang
+				gone := time.AfterFunc(300*time.Millisecond, func() { c2.Close() })
+				defer gone.Stop()
 				buf := bytes.NewBuffer(append([]byte(nil), b...))
 				reg, wrapped, err := wts[tr].WrapConnection(buf, c1, dst, rm)
 				switch {
